@@ -1080,7 +1080,13 @@ let main () =
   List.iter (fun (name, lines) ->
     Buffer.clear buf;
     pf "case %s\n" name; cur_case := name; cur_curve := None;
-    let c = ref (new_ctx ()) in
-    List.iteri (fun k l -> if l = "newmodel" then c := new_ctx () else run_line !c l k) lines;
+    let slots = Hashtbl.create 4 in
+    let cur = ref 0 in
+    Hashtbl.replace slots 0 (new_ctx ());
+    let getc () = match Hashtbl.find_opt slots !cur with Some c -> c | None -> let c = new_ctx () in Hashtbl.replace slots !cur c; c in
+    List.iteri (fun k l ->
+      if l = "newmodel" then Hashtbl.replace slots !cur (new_ctx ())
+      else if String.length l > 4 && String.sub l 0 4 = "use " then cur := int_of_string (String.sub l 4 (String.length l - 4))
+      else run_line (getc ()) l k) lines;
     pf "endcase %s\n" name;
     print_string (Buffer.contents buf)) (List.rev !cases)
